@@ -1051,8 +1051,8 @@ class Ctx:
         special = {
             "state": Agg(self.state_adt, 0, state_fields),
             "output": out,
-            "seed": Opaque("seed"),
-            "bufsize": Opaque("bufsize"),
+            "seed": LazyOption("seed", "u64"),
+            "bufsize": LazyOption("bufsize", "usize"),
             "min_opcodes": Sym("min_opcodes", (), "usize", attrs={"name": "min_opcodes"}),
             "max_opcodes": Sym("max_opcodes", (), "usize", attrs={"name": "max_opcodes"}),
             "mutators": muts,
@@ -1256,3 +1256,24 @@ def _out_index_ref(self, I, idx):
 
 
 AbsOutput.index_ref = _out_index_ref
+
+
+class LazyOption:
+    """Option<T> configuration value: None or Some(symbol), chosen at first inspection"""
+
+    def __init__(self, name, ty="u64"):
+        self.name = name
+        self.ty = ty
+        self.chosen = None
+        self.inner = Sym(name, (), ty, attrs={"name": name})
+
+    def __repr__(self):
+        return "LazyOption(%s=%r)" % (self.name, self.chosen)
+
+    def discriminant(self, I):
+        if self.chosen is None:
+            self.chosen = I.run.choose(2, "option " + self.name)
+        return self.chosen
+
+    def get_field(self, I, i):
+        return self.inner
